@@ -498,4 +498,8 @@ def run(ck):
               "for the current message (the buffer's size, or a fill counter that only reset() takes back) and nothing removes bytes from "
               "the measured buffer between two feeds -- otherwise a request of any size is accepted piecewise and its body retained",
               min_instances=2)
+    ck.borrow("C18", ["C18-R6"], "C03-R16",
+              "nothing the value parsers see is kept beyond the call: no static, thread_local or namespace-scope container in the media-type "
+              "parser's closure grows with what peers send (a memo keyed by the text of a header value is a store the peer fills, one "
+              "distinct value per request, without any limit)", min_instances=2)
 
